@@ -117,6 +117,8 @@ def run_impl(case: dict, inputs: list[Path], out: Path, ctx=None, procs: int = 4
         split_largest_after_each_midsection_round=case["split"], midsection_merge_criterion=case["mid"],
         final_merge_criterion=case["final"], save_centroids=case["cent"], cleanup=case["cleanup"],
     )
+    if case.get("save_tree"):
+        kw["save_tree"] = True
     kw.update(extra)
     if ctx is not None:
         kw["mp_context"] = ctx
@@ -406,6 +408,18 @@ class Interposer:
                 raise Crash()
             return me.real_unlink(self_, *a, **kw)
 
+        import bblean.bitbirch as bbm
+        self.real_tree_save = bbm.BitBirch.save
+
+        def tree_save(self_, path, *a, **kw):
+            if me.hit(f"tree:{Path(path).name}"):
+                if me.partial:
+                    with open(path, "wb") as f:
+                        f.write(b"\x80\x04")
+                raise Crash()
+            return me.real_tree_save(self_, path, *a, **kw)
+
+        bbm.BitBirch.save = tree_save
         mr._numpy_streaming_save = save
         mr.pickle = PickleProxy()
         mr.os = OsProxy()
@@ -415,6 +429,8 @@ class Interposer:
     def __exit__(self, *a):
         mr._numpy_streaming_save, mr.pickle, mr.os = self.real_save, self.real_pickle, self.real_os
         Path.unlink = self.real_unlink
+        import bblean.bitbirch as bbm
+        bbm.BitBirch.save = self.real_tree_save
         return False
 
 
@@ -438,6 +454,7 @@ def suite_c14(tier: str, seed: int, mult: int) -> SuiteResult:
         for ci in range(n_cfg):
             case = gen_case(rng, small=True)
             case["cleanup"] = rng.random() < 0.5
+            case["save_tree"] = rng.random() < 0.5
             indir = work / f"in{ci}"
             indir.mkdir()
             inputs = write_inputs(case, indir)
@@ -455,7 +472,7 @@ def suite_c14(tier: str, seed: int, mult: int) -> SuiteResult:
                 N = sum(len(f) for f in c2["files"])
                 d.cmd(exp_table_line(N + 2))
                 mans = d.cmd(model_line(c2))
-                iv = ("ok " + show_dir(o)) if a == "ok" else a
+                iv = ("ok " + show_dir(o).replace("bitbirch.pkl=other ", "").replace(" bitbirch.pkl=other", "")) if a == "ok" else a
                 if mans != iv and res.disagreement is None:
                     res.disagreement = {"what": "fresh multiround run", "case": c2, "model": mans[:2000], "impl": iv[:2000]}
                 shutil.rmtree(o, ignore_errors=True)
@@ -494,6 +511,15 @@ def suite_c14(tier: str, seed: int, mult: int) -> SuiteResult:
             _, total, trace = run_crashing(case, inputs, o, None, False)
             shutil.rmtree(o, ignore_errors=True)
             cnt["effects_total"] += total
+            # clusters.pkl is the LAST output published: after its rename only intermediate files are removed
+            if "rename:clusters.pkl" in trace:
+                after = trace[trace.index("rename:clusters.pkl") + 1:]
+                late = [x for x in after if not x.startswith("unlink:round-")]
+                if late:
+                    res.failures.append({"signature": "C14:clusters.pkl-is-not-the-last-output-published",
+                                         "what": f"effects after the publication of clusters.pkl: {late[:4]}",
+                                         "case": {"case": case}})
+                    break
             ks = list(range(1, total + 1))
             if tier == "quick" and len(ks) > 12:
                 ks = sorted(rng.sample(ks, 12))
